@@ -50,7 +50,7 @@ package protectedmemory
 //@   requires mc != nil
 //@   ensures [C12:secret-iff-no-error] (err == nil) == (result != nil)
 //@   ensures [C11:locked-before-any-secret-byte] err == nil ==> result.secretInternal != nil && fresh(result.secretInternal) && wfS(result.secretInternal) && len(result.secretInternal.bytes) == size && mapped(arr(result.secretInternal.bytes)) && locked(arr(result.secretInternal.bytes)) && prot(arr(result.secretInternal.bytes)) == 2 && allzero(result.secretInternal.bytes) && fresh(result.secretInternal.bytes) && !result.secretInternal.closed && !result.secretInternal.closing && result.secretInternal.accessCounter == 0 && result.secretInternal.rw != nil && *result.secretInternal.rw == 0 && result.secretInternal.mc == mc
-//@   ensures [C12:failed-creation-leaves-nothing-mapped] err != nil && ret(Free, 1, 0) == nil ==> (forall p ref :: mapped(p) ==> old(mapped(p)))
+//@   ensures [C12:failed-creation-leaves-nothing-mapped] err != nil && relfail == old(relfail) ==> (forall p ref :: mapped(p) ==> old(mapped(p)))
 //@   ensures [C12:failed-creation-leaves-nothing-locked] err != nil ==> (forall p ref :: locked(p) ==> old(locked(p)))
 
 //@ func (*SecretFactory).New
@@ -61,6 +61,7 @@ package protectedmemory
 //@   ensures [C10:source-wiped] forall i int :: 0 <= i && i < len(b) ==> b[i] == 0
 //@   ensures [C12:secret-iff-no-error] (err == nil) == (result != nil)
 //@   ensures [C11:idle-secret-is-inaccessible] err == nil ==> istype(result, *secret) && dyn(result, *secret).secretInternal != nil && mapped(arr(dyn(result, *secret).secretInternal.bytes)) && locked(arr(dyn(result, *secret).secretInternal.bytes)) && prot(arr(dyn(result, *secret).secretInternal.bytes)) == 0
+//@   ensures [C12:failed-creation-leaves-nothing-mapped-or-locked] err != nil && relfail == old(relfail) ==> (forall p ref :: (mapped(p) ==> old(mapped(p))) && (locked(p) ==> old(locked(p))))
 //@   ensures [C12:in-use-counted-only-on-success] cnt(securememory.InUseCounter) == old(cnt(securememory.InUseCounter)) + (if err == nil then 1 else 0)
 
 //@ func (*SecretFactory).createRandom
@@ -71,6 +72,7 @@ package protectedmemory
 //@   requires f != nil && readFunc != nil
 //@   ensures [C12:secret-iff-no-error] (err == nil) == (result != nil)
 //@   ensures [C11:idle-secret-is-inaccessible] err == nil ==> istype(result, *secret) && dyn(result, *secret).secretInternal != nil && mapped(arr(dyn(result, *secret).secretInternal.bytes)) && locked(arr(dyn(result, *secret).secretInternal.bytes)) && prot(arr(dyn(result, *secret).secretInternal.bytes)) == 0
+//@   ensures [C12:failed-creation-leaves-nothing-mapped-or-locked] err != nil && relfail == old(relfail) ==> (forall p ref :: (mapped(p) ==> old(mapped(p))) && (locked(p) ==> old(locked(p))))
 //@   ensures [C12:in-use-counted-only-on-success] cnt(securememory.InUseCounter) == old(cnt(securememory.InUseCounter)) + (if err == nil then 1 else 0)
 
 // the random source may fail; it writes only into the buffer it is given
@@ -104,7 +106,7 @@ package protectedmemory
 //@   safety C12
 //@   opt no-frame
 //@   requires wfS(s) && *s.rw == 2 && !s.closed && s.accessCounter == 0 && s.bytes != nil && mapped(arr(s.bytes)) && locked(arr(s.bytes))
-//@   ensures [C11:close-wipes-unlocks-and-unmaps] err == nil ==> s.closed && s.bytes == nil && !mapped(arr(old(s.bytes))) && !locked(arr(old(s.bytes)))
+//@   ensures [C11,C12:close-wipes-unlocks-and-unmaps] err == nil ==> s.closed && s.bytes == nil && !mapped(arr(old(s.bytes))) && !locked(arr(old(s.bytes)))
 //@   ensures [C12:failed-close-can-be-retried] err != nil ==> !s.closed && s.bytes == old(s.bytes) && mapped(arr(s.bytes)) && s.accessCounter == 0
 //@   ensures [C12:in-use-released-only-when-closed] cnt(securememory.InUseCounter) == old(cnt(securememory.InUseCounter)) - (if err == nil then 1 else 0)
 
